@@ -390,6 +390,11 @@ def corpus():
         {'type': 'standard', 'radius': 30.0, 'thickness': 6.0, 'material': ['glass', 'N-LAK9', 'schott']},
         {'type': 'standard', 'radius': -60.0, 'thickness': 2.0, 'material': ['glass', 'F2', 'schott']},
         {'type': 'standard', 'radius': -200.0, 'thickness': 70.0, 'material': 'air'}]))
+    # axial object point exactly at the centre of curvature of a concave mirror (1:1 / Foucault configuration): the
+    # linear coefficient of the intersection quadratic is exactly 0 for every ray
+    out.append(dict(base, name='centre-of-curvature', object_thickness=100.0, field_type='object_height',
+                    fields=[[0.0, 0.0, 0.0, 0.0], [2.0, 0.0, 0.0, 0.0]], surfaces=[
+        {'type': 'standard', 'radius': -100.0, 'thickness': -100.0, 'material': 'mirror', 'is_stop': True}]))
     # one frame component at a time: tilt about y only, tilt about x only, decentre only
     out.append(dict(base, name='single-tilts', surfaces=[
         {'type': 'standard', 'radius': 60.0, 'thickness': 5.0, 'material': ['ideal', 1.6, 0.0], 'is_stop': True, 'ry': 0.06},
